@@ -18,7 +18,7 @@ PROPS = {
     },
 }
 
-GEN = "seeded generator over scheme configurations (max/supported degree, enforced bound lists, hiding support, num_vars), polynomial shapes (full, random, zero, constant, low-order zeros, top monomial, sparse / mixed monomials), in-domain (degree bound, hiding bound) pairs with tight (bound == degree, including bound 0 for constants), loosest and arbitrary bounds and degrees at the maximum / one below / around powers of two, univariate Ligero sizes on both sides of the 2-row / 4-row matrix boundary, hostile query sets (several polynomials per point label, labels sharing a point value, one polynomial at many points, label orders differing from insertion order) and list permutations; 11 schemes (Marlin, Sonic, IPA, PST13, Hyrax, univariate/multilinear Ligero, Brakedown through the trait; KZG10, multilinear PST, streaming KZG directly; thorough adds BLS12-377 instances). "
+GEN = "seeded generator over scheme configurations (max/supported degree, enforced bound lists, hiding support, num_vars), polynomial shapes (full, random, zero, constant, low-order zeros, top monomial, sparse / mixed monomials), in-domain (degree bound, hiding bound) pairs with tight (bound == degree, including bound 0 for constants), loosest and arbitrary bounds and degrees at the maximum / one below / around powers of two, univariate Ligero sizes on both sides of the 2-row / 4-row matrix boundary, hostile query sets (several polynomials per point label, labels sharing a point value, one polynomial at many points, label orders differing from insertion order) and list permutations; 11 schemes (Marlin, Sonic, IPA, PST13, Hyrax, univariate/multilinear Ligero, Brakedown through the trait; KZG10, multilinear PST, streaming KZG directly; thorough adds BLS12-377 instances). Workloads named `<scheme>/large` repeat the same cases on configurations beyond a thousand coefficients (univariate 1023..2100 / thorough ..4200, 10 or 12 variables, PST13 4 variables of degree 11). "
 DIST = " Distinct = distinct SHA-256 hashes of (scheme, class, full case descriptor); a case is non-trivial when its oracle preconditions held (skipped cases are reported separately and never counted)."
 
 PROPS.update({
@@ -54,8 +54,8 @@ PROPS.update({
 PROPS.update({
     "C04": {
         "title": "Degree bounds",
-        "rule": "Marlin, Sonic, IPA (thorough: also BLS12-377) with configurations holding >= 2 distinct enforced bounds (unsorted, duplicated). Refusal side: degree = bound+1, bound not in the enforced set, bound beyond the key, degree beyond the key, and `open` with an over-degree polynomial on valid states must yield Err/panic. Verifier side (with a positive control on the same transcript): commitment made under d' presented as d with the honest proof and with a proof from the library prover run under the presented bound; label removed; shifted part dropped (label kept / removed), swapped between two polynomials, borrowed; cross-key: degree d+1 polynomial committed under bound d+1 with a second key trimmed from the same SRS and presented as bound d to the first verifier key. Preconditions: p(z) != 0, z != 0, non-vacuous shift; cases failing them are skipped." + DIST,
-        "required_classes": ["degree-exceeds-bound", "bound-beyond-key", "degree-beyond-key", "positive-control", "mislabelled-bound", "cross-key-mislabel"],
+        "rule": "Marlin, Sonic, IPA (thorough: also BLS12-377) with configurations holding >= 2 distinct enforced bounds (unsorted, duplicated). Refusal side: degree = bound+1, bound not in the enforced set, bound beyond the key, degree beyond the key, and `open` with an over-degree polynomial on valid states must yield Err/panic. Verifier side (with a positive control on the same transcript): commitment made under d' presented as d with the honest proof and with a proof from the library prover run under the presented bound; label removed; shifted part dropped (label kept / removed), swapped between two polynomials, borrowed; cross-key: degree d+1 polynomial committed under bound d+1 with a second key trimmed from the same SRS and presented as bound d to the first verifier key; a polynomial of degree above d committed WITHOUT bound and honestly opened as unbounded, presented under bound d with the identity element or a borrowed honest degree-bound part (Marlin, IPA). Preconditions: p(z) != 0, z != 0, non-vacuous shift; cases failing them are skipped." + DIST,
+        "required_classes": ["degree-exceeds-bound", "bound-beyond-key", "degree-beyond-key", "positive-control", "mislabelled-bound", "cross-key-mislabel", "unbounded-transcript-under-bound"],
         "technique": "runtime monitoring: boundary-magnitude refusal oracle + relabelling faults on accepting transcripts with positive control",
         "level_text": "Fault enumeration around every degree-bound boundary (deg=d+1, d not in B, d>key) and over every way of presenting a bounded commitment under another bound, each with a positive control so rejections are not vacuous.",
         "design_ref": "5 (C04)",
@@ -123,8 +123,8 @@ PROPS.update({
     },
     "C13": {
         "title": "Column openings of the code-based schemes",
-        "rule": "(a) calculate_t (hook H1) on seeded (lambda in 1..256, distance (rho-1)/rho for rho=2..16 and Brakedown's 61000/1521000, n: small, geometric ladder to 2^41, near powers of 256, and near the field-size boundary lambda+log2 n ~ bits) over four fields (252/253/255/381 bits), compared with an exact big-integer evaluation of 2(1-d/2)^t + n/|F| <= 2^-lambda at t and t-1 with the true modulus (and, for classification only, with |F|:=2^bits). (b) honest proofs of univariate / multilinear Ligero (sec_param x rho_inv grid through the public constructor) and Brakedown, degrees up to 6000 / 13 variables: column and path count == t, leaf indices == the harness's derivation from the recorded squeeze_bytes events, inside the codeword, byte width covers the codeword, every column authenticated against the root by an independent path computation. (c) reported distance == constructor arguments. (d) encode linear, zero-preserving, of the declared length. (e) parameter sets for which no t exists are refused." + DIST,
-        "required_classes": ["calculate-t-minimal", "column-count", "column-positions", "columns-authenticated", "encode-linear", "distance-reported"],
+        "rule": "(a) calculate_t (hook H1) on seeded (lambda in 1..256, distance (rho-1)/rho for rho=2..16 and Brakedown's 61000/1521000, n: small, geometric ladder to 2^41, near powers of 256, and near the field-size boundary lambda+log2 n ~ bits) over four fields (252/253/255/381 bits), compared with an exact big-integer evaluation of 2(1-d/2)^t + n/|F| <= 2^-lambda at t and t-1 with the true modulus (and, for classification only, with |F|:=2^bits). (b) honest proofs of univariate / multilinear Ligero (sec_param x rho_inv grid through the public constructor) and Brakedown, degrees up to 6000 / 13 variables: column and path count == t, leaf indices == the harness's derivation from the recorded squeeze_bytes events, inside the codeword, byte width covers the codeword, every column authenticated against the root by an independent path computation; verifier side: on an honest proof (true value) the later copy of a column at a position opened twice is shifted inside the kernel of the linear tests (b, and r with well-formedness), path kept - not accepted. (c) reported distance == constructor arguments. (d) encode linear, zero-preserving, of the declared length. (e) parameter sets for which no t exists are refused." + DIST,
+        "required_classes": ["calculate-t-minimal", "column-count", "column-positions", "columns-authenticated", "encode-linear", "distance-reported", "duplicate-position-authenticated"],
         "technique": "runtime monitoring: exact-rational oracle on a hooked pure function + structural monitor over mirrored proofs and the recorded sponge trace",
         "level_text": "The floating-point column-count formula is compared with exact arithmetic on 10^4 (quick) to 10^6 (thorough) parameter points including the numerically critical region, and every generated proof is checked to carry exactly that many authenticated, transcript-derived columns.",
         "design_ref": "5 (C13)",
@@ -135,8 +135,8 @@ PROPS.update({
 PROPS.update({
     "C03": {
         "title": "Evaluation binding against crafted and malformed proofs",
-        "rule": "Finite attack catalogue, every entry a case class with a false claimed value (recomputed truth): (generic, all 8 trait schemes) library prover run on (q, state_q) against commitment(p); honest proof for (p, z') replayed at z; honest proof for commitment(q) presented for commitment(p); empty batch proof list. (Marlin/Sonic/PST13) each proof component replaced (random / identity witness, random / dropped blinding value), PST13 witness list shorter / longer / empty. (Hyrax) inner proof list empty / truncated, z stretched / shortened, com_eval replaced by a fresh commitment to the claimed value, z_d changed. (IPA, check and batch_check) rounds missing / extra random / uneven, c and final key replaced, and the identity-padding attack: the harness's own IPA prover run on the key padded with identity elements to 2^(log d + k), k=1,2, with the extra coefficient chosen so that the inner product equals the false value. (Ligero/Brakedown, through mirror structs, with the verifier transcript simulated to derive the opened indices) opening vector altered; proof consistent with another matrix (its own paths / honest paths of the committed tree / altered sibling); opening and well-formedness vectors stretched to the codeword length by solving E'(v')[j]=E(v)[j] for all j with Gaussian elimination over the public encode; well-formedness absent; columns repeated / shifted / truncated; paths swapped. (Hyrax) the proofs of two different polynomials of one opening swapped. Sanity classes confirm that harness-built honest proofs are accepted." + DIST,
-        "required_classes": ["foreign-state-proof", "replayed-other-point", "foreign-commitment-proof", "rounds-extra-identity-padding", "stretched-opening-vector", "inner-proof-list-empty", "opening-vector-altered", "harness-built-honest-proof-accepted", "harness-prover-sanity", "proof-elements-swapped"],
+        "rule": "Finite attack catalogue, every entry a case class with a false claimed value (recomputed truth): (generic, all 8 trait schemes) library prover run on (q, state_q) against commitment(p); honest proof for (p, z') replayed at z; honest proof for commitment(q) presented for commitment(p); empty batch proof list. (Marlin/Sonic/PST13) each proof component replaced (random / identity witness, random / dropped blinding value), PST13 witness list shorter / longer / empty. (Hyrax) inner proof list empty / truncated, z stretched / shortened, com_eval replaced by a fresh commitment to the claimed value, z_d changed. (IPA, check and batch_check) rounds missing / extra random / uneven, c and final key replaced, and the identity-padding attack: the harness's own IPA prover run on the key padded with identity elements to 2^(log d + k), k=1,2, with the extra coefficient chosen so that the inner product equals the false value. (Ligero/Brakedown, through mirror structs, with the verifier transcript simulated to derive the opened indices) opening vector altered; proof consistent with another matrix (its own paths / honest paths of the committed tree / altered sibling); opening and well-formedness vectors stretched to the codeword length by solving E'(v')[j]=E(v)[j] for all j with Gaussian elimination over the public encode; well-formedness absent; columns repeated / shifted / truncated; paths swapped. (Hyrax) the proofs of two different polynomials of one opening swapped. (Marlin, Sonic, PST13, IPA batch_check) honest batch proof over 3..4 point labels with a pair of false values (d, -d*xi_1/xi_2) on two point labels, one pair per pair of labels. Sanity classes confirm that harness-built honest proofs are accepted." + DIST,
+        "required_classes": ["foreign-state-proof", "replayed-other-point", "foreign-commitment-proof", "rounds-extra-identity-padding", "stretched-opening-vector", "inner-proof-list-empty", "opening-vector-altered", "harness-built-honest-proof-accepted", "harness-prover-sanity", "proof-elements-swapped", "honest-proof-cancelling-values[across-points]"],
         "technique": "runtime monitoring: adversarial workload (attack catalogue incl. harness-side provers and linear-system solving), reject-oracle",
         "level_text": "A catalogue, not a proof of soundness: held on K attacks of the listed classes. It reaches what tests cannot because the proofs are not produced by the honest prover: the harness rebuilds crate-private proof types through their serialization, runs its own IPA prover and solves for stretched Ligero vectors.",
         "design_ref": "5 (C03)",
@@ -147,7 +147,7 @@ PROPS.update({
 PROPS.update({
     "C14": {
         "title": "Streaming KZG",
-        "rule": "(time-vs-space) seeded degrees 0..256 of all shapes, key sizes >= degree, MSM buffers {1,2,3,7,64,2^20}, 1..8 distinct points: commitment, evaluation, proof of the space prover == time prover == truth; multi-point proof == naive commitment to the quotient by the vanishing polynomial, remainder == naive remainder; verifier (built from either key) accepts the true values and not value+1. (folding-iterators) ALL 130 x 8 cells (length 1..130) x (0..7 challenges): FoldedPolynomialStream values and len() and FoldedPolynomialTree per-level sequences and depth == naive even/odd folding with zero padding. (folding-commit-open) the folded stream handed to the space committer / prover == time prover on the explicitly folded polynomial; commit_folding == per-level time commitments; open_folding proof == sum eta_i * commitment(quotient_i), remainders == naive remainders." + DIST,
+        "rule": "(time-vs-space) seeded degrees 0..256 of all shapes, key sizes >= degree, MSM buffers {1,2,3,7,64,2^20}, 1..8 distinct points: commitment, evaluation, proof of the space prover == time prover == truth; multi-point proof == naive commitment to the quotient by the vanishing polynomial, remainder == naive remainder; verifier (built from either key) accepts the true values and not value+1. (folding-iterators) ALL 130 x 8 cells (length 1..130) x (0..7 challenges): FoldedPolynomialStream values and len() and FoldedPolynomialTree per-level sequences and depth == naive even/odd folding with zero padding. (folding-commit-open) the folded stream handed to the space committer / prover == time prover on the explicitly folded polynomial; commit_folding == per-level time commitments; open_folding proof == sum eta_i * commitment(quotient_i), remainders == naive remainders. A third of the multi-point sets are structured so that the vanishing polynomial has zero coefficients between its ends ({a,-a}, three points summing to zero, three with zero pair sum, cosets of roots of unity)." + DIST,
         "required_classes": ["commit-time-equals-space", "open-time-equals-space", "multi-point-time-equals-space", "space-proof-verifies", "folded-stream", "folded-tree", "folded-stream-commit", "commit-folding", "open-folding"],
         "technique": "runtime monitoring: differential oracle (space vs time prover) + naive reference model of folding and polynomial division",
         "level_text": "Differential and reference-model monitoring over the index-arithmetic-heavy streaming code; the length x depth grid of the folding iterators is enumerated completely in every run.",
@@ -156,8 +156,8 @@ PROPS.update({
     },
     "C15": {
         "title": "PST13 parameters",
-        "rule": "Grid cells (num_vars, max_degree): quick [1,5]^2 plus three cells with max degree 6, thorough the complete [1,6]^2 grid (exhaustive for the combinatorial part), random supported_degree <= max_degree per visit. Per cell: published key set == set of all exponent vectors of total degree <= D (count C(n+D,D), no missing / extra / duplicate); e(G[m*x_i],H) == e(G[m],beta_i H) for every (m,i) with deg(m*x_i) <= D (randomised batching per variable, per-pair fallback); trimmed key == monomials of degree <= supported with identical elements; dense, sparse, top-degree-only and single-monomial mixed polynomials (with and without hiding) commit, open and verify, and value+1 is not accepted." + DIST,
-        "required_classes": ["monomial-set", "trapdoor-consistency", "trim-degree-filter", "mixed-monomial-opens", "mixed-monomial-binding"],
+        "rule": "Grid cells (num_vars, max_degree): quick [1,5]^2 plus three cells with max degree 6, thorough the complete [1,6]^2 grid (exhaustive for the combinatorial part), random supported_degree <= max_degree per visit. Per cell: published key set == set of all exponent vectors of total degree <= D (count C(n+D,D), no missing / extra / duplicate); e(G[m*x_i],H) == e(G[m],beta_i H) for every (m,i) with deg(m*x_i) <= D (randomised batching per variable, per-pair fallback); trimmed key == monomials of degree <= supported with identical elements; dense, sparse, top-degree-only and single-monomial mixed polynomials (with and without hiding) commit, open and verify, and value+1 is not accepted; four polynomials (zero, dense, constant, sparse, rotated through the list positions, hiding mixed) opened together at one point verify, one value+1 does not." + DIST,
+        "required_classes": ["monomial-set", "trapdoor-consistency", "trim-degree-filter", "mixed-monomial-opens", "mixed-monomial-binding", "polynomial-list-opens", "polynomial-list-binding"],
         "technique": "runtime monitoring: structural invariant of the SRS (set equality + pairing identities) + end-to-end oracle on mixed-monomial workloads",
         "level_text": "The multiset enumeration behind the parameters is checked against an independent enumeration on the whole small grid, and the quotient decomposition is exercised on genuinely multivariate polynomials the suite never generates.",
         "design_ref": "5 (C15)",
@@ -207,8 +207,8 @@ PROPS.update({
 PROPS.update({
     "C10": {
         "title": "Verifiers decide exactly the published relation",
-        "rule": GEN + "For each accepting single-point transcript (1..3 polynomials with bounds / hiding) the library verifier and an independent reference verifier (written from the published relation: KZG pairing equation and its Marlin / Sonic / PST13 / multilinear-PST / streaming forms; IPA round-commitment and final-key equations via the harness's own IPA code; Hyrax equations (13), (14) plus 'the evaluation commitment opens to the claimed value'; Ligero / Brakedown transcript-derived indices, independent Merkle authentication, column and well-formedness consistency, <v,a> = value, shape constraints) are run on clones of one recording sponge, on: the honest transcript; every single-component substitution (each commitment part, degree-bound label, value, point coordinate, every proof field / element incl. every IPA round element and Merkle sibling, every verifier-key element with its prepared twin); compensated double faults that keep the relation true (C+dG with v+d; W+wG with C+(w/xi)(beta G - zG)). Oracle: library accepts <=> reference relation holds (Err / panic count as not accepting)." + DIST,
-        "required_classes": ["honest-satisfies-relation", "compensated-fault-agrees", "single-fault-agrees[value]", "single-fault-agrees[commitment]", "single-fault-agrees[point]", "single-fault-agrees[proof-w]", "single-fault-agrees[vk-h]"],
+        "rule": GEN + "For each accepting single-point transcript (1..3 polynomials with bounds / hiding) the library verifier and an independent reference verifier (written from the published relation: KZG pairing equation and its Marlin / Sonic / PST13 / multilinear-PST / streaming forms; IPA round-commitment and final-key equations via the harness's own IPA code; Hyrax equations (13), (14) plus 'the evaluation commitment opens to the claimed value'; Ligero / Brakedown transcript-derived indices, independent Merkle authentication, column and well-formedness consistency, <v,a> = value, shape constraints) are run on clones of one recording sponge, on: the honest transcript; every single-component substitution (each commitment part, degree-bound label, value, point coordinate, every proof field / element incl. every IPA round element and Merkle sibling, every verifier-key element with its prepared twin); compensated double faults that keep the relation true (C+dG with v+d; W+wG with C+(w/xi)(beta G - zG)); linear codes: leaf index replaced by out-of-range aliases (q + k*lcm(n, tree width), q + n), the later copy of a column at a position opened twice shifted inside the kernel of the linear tests. Oracle: library accepts <=> reference relation holds (Err / panic count as not accepting)." + DIST,
+        "required_classes": ["honest-satisfies-relation", "compensated-fault-agrees", "single-fault-agrees[value]", "single-fault-agrees[commitment]", "single-fault-agrees[point]", "single-fault-agrees[proof-w]", "single-fault-agrees[vk-h]", "single-fault-agrees[proof-path-leaf-index-aliased]"],
         "technique": "runtime monitoring: differential oracle against independent reference verifiers sharing only the recorded transcript",
         "level_text": "Equality of two decision procedures over the whole single-fault neighbourhood of generated honest transcripts (20-60 substitutions per transcript) plus relation-preserving double faults, which exercises the accept side beyond honest proofs.",
         "design_ref": "5 (C10)",
